@@ -764,6 +764,20 @@ impl Transaction {
         let (value_balance, shielded_spends, shielded_outputs) =
             sapling_serialization::read_v4_components(&mut reader, version.has_sapling())?;
 
+        // Consensus rule (§7.1.2): with no Sapling spends or outputs, valueBalanceSapling MUST
+        // be 0. Such a transaction is parsed without a Sapling bundle and so is written back
+        // with a zero valueBalanceSapling; any other value would not survive a round trip, and
+        // the transaction ID (the hash of the bytes read) would not be that of its encoding.
+        if shielded_spends.is_empty()
+            && shielded_outputs.is_empty()
+            && value_balance != ZatBalance::zero()
+        {
+            return Err(io::Error::new(
+                io::ErrorKind::InvalidData,
+                "valueBalanceSapling must be zero when there are no Sapling spends or outputs",
+            ));
+        }
+
         let sprout_bundle = if version.has_sprout() {
             let joinsplits = Vector::read(&mut reader, |r| {
                 JsDescription::read(r, version.has_sapling())
